@@ -81,15 +81,60 @@ def scrape():
     raise ScrapeError("decompress_to_ntf: unexpected order of tempfile()/lock/push")
 
 
+def scrape_select():
+    """does the coordinator's wait on the channels time out (so that the read lock of the channel map
+    is released regularly and the signal handler, which needs the write lock, can run)?"""
+    binsrc = strip_comments(read("src/bin/s4.rs"))
+    body = body_of(binsrc, r"fn\s+recv_many_chan\s*<")
+    # messages and comments mention `select.select()` too: look at code only
+    body = re.sub(r'"(?:[^"\\]|\\.)*"', '""', body)
+    body = re.sub(r"//[^\n]*", "", body)
+    plain = re.search(r"\bselect\s*\.\s*select\s*\(\s*\)", body) is not None
+    timed = re.search(r"\bselect\s*\.\s*select_timeout\s*\(", body) is not None
+    if plain == timed:
+        raise ScrapeError("recv_many_chan: expected exactly one of select.select() / select.select_timeout(..)")
+    if not timed:
+        return False
+    if not re.search(r"return\s+RecvMany::Timeout", body):
+        raise ScrapeError("recv_many_chan: select_timeout without `return RecvMany::Timeout`")
+    loop = body_of(binsrc, r"fn\s+processing_loop\s*\(")
+    m = re.search(r"RecvMany::Timeout\s*=>\s*\{([^{}]*)\}", loop)
+    if not m or not re.search(r"\bcontinue\s*;", m.group(1)):
+        raise ScrapeError("processing_loop: the RecvMany::Timeout arm does not `continue` the loop")
+    a = loop.find("loop {")
+    if a < 0 or not re.search(r"exit_early_check!\s*\(\s*\)", loop[a:a + 400]):
+        raise ScrapeError("processing_loop: exit_early_check!() is not at the top of the main loop")
+    return True
+
+
+def scrape_flag_first():
+    """does the signal handler set EXIT_EARLY before it asks for the write lock of the channel map?"""
+    binsrc = strip_comments(read("src/bin/s4.rs"))
+    handler = body_of(binsrc, r"ctrlc::set_handler\s*\(\s*move\s*\|\|")
+    handler = re.sub(r'"(?:[^"\\]|\\.)*"', '""', handler)
+    handler = re.sub(r"//[^\n]*", "", handler)
+    fl = re.search(r"EXIT_EARLY\s*\.\s*write\s*\(", handler)
+    mp = re.search(r"MAP_PATHID_CHANRECVDATUM\s*\.\s*write\s*\(", handler)
+    if not fl or not mp:
+        raise ScrapeError("signal handler: EXIT_EARLY.write() / MAP_PATHID_CHANRECVDATUM.write() not found")
+    return fl.start() < mp.start()
+
+
 def generate():
     proto = scrape()
+    timed = scrape_select()
+    flag_first = scrape_flag_first()
     text = "\n".join([
         "(* GENERATED by tools/gen_tables.py (tools/gen/tempproto.py) from src/readers/filedecompressor.rs and",
         "   src/bin/s4.rs — do not edit.  Which protocol of Model/TempFiles.v the current tree implements. *)",
         "From S4.Model Require Import TempFiles.",
         "Definition current_proto : proto := %s." % proto,
+        "(* does recv_many_chan wait with a timeout and the main loop re-check EXIT_EARLY afterwards? *)",
+        "Definition current_select_has_timeout : bool := %s." % ("true" if timed else "false"),
+        "(* does the signal handler set EXIT_EARLY before it asks for the write lock of the channel map? *)",
+        "Definition current_handler_flag_first : bool := %s." % ("true" if flag_first else "false"),
         ""])
     import json
     with open(os.path.join(GEN, "tempproto.json"), "w") as f:
-        json.dump({"proto": proto}, f)
+        json.dump({"proto": proto, "select_has_timeout": timed, "handler_flag_first": flag_first}, f)
     return write_if_changed(os.path.join(GEN, "TempProto.v"), text)
